@@ -345,6 +345,10 @@ def run(ctx):
                   "rotations of one path within a second lose the first rotated file", ren[0], "existence of the target is tested before renaming",
                   key="R17.4:rotate_existing_file:may-overwrite-target")
 
+    # ------------------------------------------------------------------ R17.5 (sibling rule) a failed statement does not take accepted records with it
+    ctx.import_rule("C18", "R18.3", "R17.5", "every record the SQLite writer accepted is on disk after close: transaction control is issued only by tx_cycle (a ROLLBACK on an error path discards the batch)")
+
+
 
 def _same_guarded_block(a, b, cfg) -> bool:
     """flush() and the release sit in the same `if <resource>:` block (flush first)."""
